@@ -9,7 +9,7 @@
 (*   v    - the room version (selects the algorithm and the auth rules)    *)
 (*                                                                         *)
 (* Event record: [type, sender, skey, membership, plu, jr, prev, auth,     *)
-(*                depth, ts, idr, sha, rejected, addl, pud]                *)
+(*                depth, ts, idr, sha, rejected, addl, pud, spell]         *)
 (*   type in {"create","member","pl","jr","topic"}; skey = target user of  *)
 (*   a member event; "" otherwise, or "x" (a non-empty state key that is   *)
 (*   no user ID) on a pl / jr event: such an event has the TYPE of a       *)
@@ -20,12 +20,36 @@
 (*   the other thresholds keep their defaults in room models);             *)
 (*   prev / auth = sets of ids; ts = timestamp rank; idr = rank of the     *)
 (*   event ID in lexicographic order; sha = rank of SHA-1(event ID).       *)
+(*   spell = how a power-levels content WRITES its levels (`users` entries *)
+(*   and users_default): "int" (JSON integers), "str" ("50"), "strpad"     *)
+(*   ("  50 "), "float" (50.0), "frac" (50.5, read as 50).  Room versions  *)
+(*   1-9 read the same level from each (Auth.tla ParseOK / A11; floats     *)
+(*   only exist before version 6, which enforces canonical JSON);          *)
+(*   integer-only versions reject the event.  EVERY reader                 *)
+(*   of a level - the auth rules AND the sender power of the power         *)
+(*   ordering (R2) - reads it as the room version does: the spelling never *)
+(*   changes a level (LevelsSpellingFree below); "int" on other events.    *)
+(*   depth = the sender-chosen int64 depth as a RANK: the definition (v1   *)
+(*   only) reads nothing but the order of depths, so every strictly        *)
+(*   increasing realisation - small naturals, or values more than 2^63     *)
+(*   apart, negative ones included - defines the same state                *)
+(*   (V1DepthRankOnly, V1StrictTotal below); v2 / v2.1 and the topological *)
+(*   orderings never read it (depths running against the DAG included).    *)
 (***************************************************************************)
 EXTENDS Auth, SequencesExt
 
 KeyOf(E, e) == <<E[e].type, E[e].skey>>
 NoUsers == [u \in Users |-> Absent]
-PLCOf(E, e) == [EmptyPL EXCEPT !.users = E[e].plu, !.users_default = E[e].pud]
+PLSpellings == {"int", "str", "strpad", "float", "frac"}
+\* the spellings an event of a room version can carry and the version reads (an unread one makes the power-levels
+\* event unparseable: rule 10 rejects it; a float is no canonical JSON: from version 6 on no event contains one)
+SpellAdmitted(v, s) == \/ s = "int"
+                       \/ ~IntegerPowerLevels(v) /\ s \in {"str", "strpad"}
+                       \/ ~IntegerPowerLevels(v) /\ ~EnforcedCanonJSON(v) /\ s \in {"float", "frac"}
+PLCOf(E, e) == [EmptyPL EXCEPT !.users = E[e].plu, !.users_default = E[e].pud,
+                               !.spkind = E[e].spell, !.spk = IF E[e].spell = "int" THEN "" ELSE "users"]
+\* the levels a content gives, whatever its (admitted) spelling
+LevelsOf(c) == [users |-> c.users, users_default |-> c.users_default]
 
 AllIds(Sets) == UNION {Sets[i] : i \in DOMAIN Sets}
 ForKey(E, S, k) == {e \in S : KeyOf(E, e) = k}
@@ -82,7 +106,8 @@ PowerEvents(E, C, Full, U) ==
 (***************************************************************************)
 (* Reverse topological power ordering (R1, R2, R5)                         *)
 (***************************************************************************)
-CreateId(E) == CHOOSE e \in DOMAIN E : E[e].type = "create"
+\* (the room's create event: the one under the empty state key)
+CreateId(E) == CHOOSE e \in DOMAIN E : KeyOf(E, e) = <<"create", "">>
 CreatorsOf(E) == {E[CreateId(E)].sender} \cup E[CreateId(E)].addl   \* create sender + additional_creators
 
 \* R2: the sender's power is read from the power-levels event among the event's own auth events; it is the
@@ -275,4 +300,37 @@ WellFormedR(E, Sets, R) ==
                                   => e \in R                                          \* agreed keys are kept
     /\ ((\A i \in DOMAIN Sets : Sets[i] = Sets[1]) => R = Sets[1])                     \* equal sets are a fixed point
 WellFormed(E, v, Sets) == WellFormedR(E, Sets, Resolve(E, v, Sets))
+
+(***************************************************************************)
+(* Lemmas of the definition (checked by TLC on every emitted query): they  *)
+(* are what licenses the concretiser to vary a dimension the definition    *)
+(* does not read, and the metamorphic variants of C11                      *)
+(***************************************************************************)
+\* spelling: how a power-levels event writes its levels changes neither the sender power of the power ordering (R2)
+\* nor the resolved state
+Respelled(E, s) == [i \in DOMAIN E |-> IF E[i].type = "pl" THEN [E[i] EXCEPT !.spell = s] ELSE E[i]]
+LevelsSpellingFree(E, v, Sets) ==
+    /\ \A e \in DOMAIN E : SenderPower(E, v, e) = SenderPower(Respelled(E, "int"), v, e)
+    /\ \A e \in DOMAIN E : E[e].type = "pl" => LevelsOf(PLCOf(E, e)) = LevelsOf(PLCOf(Respelled(E, "int"), e))
+
+\* v1: the order of a conflicted block is a strict total order (event IDs, hence SHA-1 ranks, are distinct) ...
+V1StrictTotal(E, X) ==
+    /\ \A a \in X, b \in X : a # b => (V1Before(E, a, b) # V1Before(E, b, a))
+    /\ \A a \in X, b \in X, c \in X : V1Before(E, a, b) /\ V1Before(E, b, c) => V1Before(E, a, c)
+\* ... that reads the depths through their order only: a strictly increasing re-numbering (here one that makes the
+\* low depths negative) resolves to the same state.  The concretiser realises depth ranks as int64 values of its
+\* choice, including values more than 2^63 apart.
+Stretched(E) == [i \in DOMAIN E |-> [E[i] EXCEPT !.depth = 7 * @ - 50]]
+V1DepthRankOnly(E, v, Sets) == ResultV1(Stretched(E), v, Sets) = ResultV1(E, v, Sets)
+
+\* padding: an event of a control TYPE (or any type) under a state key of its own that every state set holds and
+\* nothing cites is an ordinary agreed entry: it is kept and changes nothing else.  t: its type
+PadEvent(E, t) ==
+    [E[CreateId(E)] EXCEPT !.type = t, !.skey = "p", !.prev = {CreateId(E)}, !.auth = {CreateId(E)}, !.depth = 2,
+                           !.jr = IF t = "jr" THEN "invite" ELSE "", !.idr = 0, !.sha = 0, !.addl = {}]
+PadNeutral(E, v, Sets, t) ==
+    LET x == Len(E) + 1
+        EP == Append(E, PadEvent(E, t))
+        SP == [k \in DOMAIN Sets |-> Sets[k] \cup {x}]
+    IN Resolve(EP, v, SP) = Resolve(E, v, Sets) \cup {x}
 =============================================================================
